@@ -2,7 +2,7 @@
 #include "common/lafem_gen.hpp"
 #include "common/c01_core.hpp"
 using namespace vf;
-#define APPLY(Dexp, has_t) apply_case<DT>(t, c, A, Dexp, has_t, [&] { return DenseVector<DT, IT>(A.rows()); }, [&] { return DenseVector<DT, IT>(A.columns()); }, [](const decltype(A)& m) { return snapshot(m); })
+#define APPLY(Dexp, has_t) apply_case<DT, has_t>(t, c, A, Dexp, has_t, [&] { return DenseVector<DT, IT>(A.rows()); }, [&] { return DenseVector<DT, IT>(A.columns()); }, [](const decltype(A)& m) { return snapshot(m); })
 
 template<typename DT, typename IT> void csr_case(Tape& t, Ctx& c)
 {
